@@ -29,7 +29,7 @@ open XixiKV XixiKV.Frame XixiKV.Record XixiKV.Index XixiKV.Engine XixiKV.Engine.
     appends are well-formed and every live-operation theorem applies again). -/
 theorem C03_open_crash (s : St) (dir : String) (cfg : Cfg) (d : DirSt)
     (gI : GDir) (id : Nat) (gl : GFile) (dataI : List (Nat × FileSt)) (fl : FileSt) (n : Nat)
-    (hdb : s.db = none) (hcfg : cfg.fileSize > 0)
+    (hdb : s.db = none) (hcfg : cfg.Valid)
     (hd : s.world.get dir = some d) (hl : d.locked = false)
     (hnomerge : s.world.get (mergeDirName dir) = none)
     (hasc : AscIds (gI ++ [(id, gl)]))
@@ -113,7 +113,7 @@ theorem C03_crash_restart (s sc : St) (db : DB) (g : GDir) (cfg : Cfg) (d dc : D
     (hinv : Inv s db g) (hd : s.world.get db.dir = some d) (hlast : OnlyLastCut d.data)
     (hnodb : sc.db = none) (hdc : sc.world.get db.dir = some dc) (hunl : dc.locked = false)
     (himg : CrashImage d.data dc.data)
-    (hnomerge : sc.world.get (mergeDirName db.dir) = none) (hcfg : cfg.fileSize > 0) :
+    (hnomerge : sc.world.get (mergeDirName db.dir) = none) (hcfg : cfg.Valid) :
     ∃ g' s' db', openDB sc db.dir cfg = (s', .ok) ∧ s'.db = some db' ∧ Inv s' db' g' ∧
       db'.activeId = db.activeId ∧
       db'.index = (replayLog (logOf g')).index ∧
